@@ -65,3 +65,13 @@ var (
 	TypeRefT00 = reflect.TypeOf(RefT00(nil))
 	TypeRefT03 = reflect.TypeOf(RefT03(nil))
 )
+
+// Anonymous fields that carry a tag of their own are injection points like named ones (the decorator
+// layout `type Cached struct { Store `wire:""` }`, an embedded pointer, an embedded named slice type).
+type PlainDep struct{ X int }
+type IBs []IB
+type AnonTagged struct {
+	IA        `wire:""`
+	*PlainDep `wire:""`
+	IBs       `wire:",required=false"`
+}
